@@ -1,29 +1,34 @@
 // C05 — proofs bind every public input and every transmitted value (fault enumeration).
 //
-// For every cell of the protocol catalogue (drivers/c03_protocols.hh, purpose 5: small-admissible regime, |q| >= 160,
-// l_e = 64 with |q| = 192 for the Groth family, cut-and-choose kappa <= 8, stack size n <= 3 (4 in thorough), one coin
-// seed per cell) the honest protocol is run once with the real code (C03's recorder) and must be accepted.  Then
+// For every cell of the protocol catalogue (drivers/c03_protocols.hh, specs(5, tier, family): small-admissible regime,
+// |q| >= 160, l_e = 64 with |q| = 192 for the Groth family, cut-and-choose kappa in {2,8}, stack size n <= 3 (4 in
+// thorough), one coin seed per cell in quick and two in thorough) the honest protocol is run once with the real code
+// (C03's recorder) and must be accepted.  Then
 //   (1) every line of the prover->verifier direction, and for interactive protocols every line of the
 //       verifier->prover direction as well, is mutated in turn — one mutation of one line of one direction per run:
 //         numeric positions : v+1, 2v+3, 0, 1, p-1, p, q, v+q, v+p, p-v, -v, v-q, 2^4096, an oversized digit string
 //         structured text   : the same per numeric token, literal tokens replaced/extended/emptied
 //         every line        : empty line, swap with the next line, truncation of the stream after the line
 //       non-interactive proofs: the verifier alone is replayed on the mutated text (std::stringstream);
-//       interactive ones: prover and verifier are re-run with the same coins and a man-in-the-middle in the
-//       wire::Duplex relay applies the mutation.
+//       interactive ones: prover and verifier are re-run with the same coins and a man-in-the-middle applies the
+//       mutation in the relay (c03_core.hh: coroutine transport by default, mc/wire.hh Duplex relay with
+//       C3_TRANSPORT=threads / under ASan; both give the same executions).
 //   (2) every public input the verifier is called with (card components of both stacks, keys, generators, p, q,
 //       commitments, messages) is replaced by v+1, 2v+3, p-v, and a neighbour's valid value; the prover keeps the
-//       true statement.
+//       true statement.  Group parameters are changed by rebuilding the verifier object from a mutated published
+//       group text (or re-deriving its exponentiation tables), so that only the proof can notice.
 // Oracle (exact, asymmetric; c03_core.hh expect()):
 //   non-equivalent value (different residue mod q / element mod p / integer for hashes and counters / square mod m)
-//       => the verifier must return false or throw std::exception         key c05/<family>/<position>/nonequiv|nonmember
+//       => the verifier must return false or throw std::exception   key c05/<family>/<position>/<class>/<mutation>
 //   equivalent representation outside the prescribed range (v+p for elements, v+q for range-checked exponents)
-//       => must be refused                                                key c05/<family>/<position>/range
-//   equivalent representation the protocol does not range-restrict (v-q, negated root, parity-equal bit)
-//       => unconstrained, only counted (free_accepted / free_rejected)
+//       => must be refused                                          class "range"
+//   equivalent representation the protocol does not range-restrict (v-q, negated root, parity-equal bit, a larger
+//   kappa on the prover's side)  => unconstrained, only counted (free_accepted / free_rejected)
 //   cut-and-choose: a position is judged only if the challenge bits actually sent in this run make the verifier look
 //   at it (coverage is computed from the recorded verifier lines), so no verdict has probability 1/2.
-//   Any exception that is not a std::exception counts as a violation (…/nonstd-exception).
+//   Non-member values (-x) that the *caller* passes to class-level verifiers are recorded, not judged (see PubIn).
+//   Any exception that is not a std::exception counts as a violation (.../nonstd-exception).
+//   Root-cause keys: c05/negated-exponent/..., c05/order2-commitment/..., c05/element-range-unchecked/... (Tag::weak).
 // distinct_nontrivial = number of distinct (cell, direction, line, mutated text) / (cell, input, value) cases whose
 // mutated value differs from the original and for which a verdict is asserted.
 #include "c03_protocols.hh"
